@@ -566,4 +566,166 @@ theorem dateTime_lex_roundtrip (v11 : Bool) (v : DT) (hv : v.Valid) (hyb : v.yea
       ((u.toNat % 1000000 : Nat) : Int) = u := by unfold timeUs; omega
   rw [this]
 
+/-- shape of the value of a Gregorian partial type: the absent fields are the constructor's defaults -/
+def GShape (k : GKind) (v : DT) : Prop :=
+  v.us = 0 ∧
+  match k with
+  | .gYear => v.month = 1 ∧ v.day = 1
+  | .gYearMonth => v.day = 1
+  | .gMonth => v.year = 2000 ∧ v.day = 1
+  | .gMonthDay => v.year = 2000
+  | .gDay => v.year = 2000 ∧ v.month = 1
+
+theorem splitYear_fmtYear (v11 : Bool) (y : Int) (tail : Str) (ht : tail = [] ∨ ∃ c r, tail = c :: r ∧ c.isDigit = false) :
+    splitYear (fmtYear v11 y ++ tail) = (decide (isoYear v11 y < 0), pad 4 (isoYear v11 y).natAbs, tail) := by
+  unfold fmtYear
+  simp only []
+  generalize isoYear v11 y = n
+  have hdig := pad_all_digits 4 n.natAbs
+  have hsplit : (pad 4 n.natAbs ++ tail).takeWhile Char.isDigit = pad 4 n.natAbs ∧
+      (pad 4 n.natAbs ++ tail).dropWhile Char.isDigit = tail := by
+    rcases ht with rfl | ⟨c, r, rfl, hc⟩
+    · simpa using takeWhile_digits_end _ hdig
+    · exact takeWhile_digits_append _ r c hdig hc
+  by_cases hn : n < 0
+  · simp only [hn, ↓reduceIte, List.cons_append, List.nil_append, decide_true]
+    simp only [splitYear, hsplit.1, hsplit.2]
+  · simp only [hn, ↓reduceIte, List.nil_append, decide_false]
+    have hne := pad_ne_nil 4 n.natAbs
+    cases hp : pad 4 n.natAbs with
+    | nil => exact absurd hp hne
+    | cons c cs =>
+      have hc : c.isDigit = true := by apply hdig; rw [hp]; simp
+      have hcne : c ≠ '-' := by intro h; subst h; revert hc; decide
+      rw [hp] at hsplit
+      unfold splitYear
+      simp only [List.cons_append] at hsplit ⊢
+      split
+      · rename_i heq; simp only [List.cons.injEq] at heq; exact absurd heq.1 hcne
+      · rw [hsplit.1, hsplit.2]
+
+theorem tzHead_weak {tail : Str} (h : TzHead tail) : tail = [] ∨ ∃ c r, tail = c :: r ∧ c.isDigit = false := by
+  rcases h with h | ⟨c, r, h1, h2, _⟩
+  · exact Or.inl h
+  · exact Or.inr ⟨c, r, h1, h2⟩
+
+theorem mk_midnight (y m d : Int) (tz : Option Int) (hy : y ≠ 0) (hyb : y.natAbs ≤ 2 ^ 31) (hm : 1 ≤ m ∧ m ≤ 12)
+    (hd : 1 ≤ d ∧ d ≤ monthDays (proxyLeap y) m) : mk y m d 0 0 0 0 tz = .ok ⟨y, m, d, 0, tz⟩ :=
+  mk_ok y m d 0 0 0 0 tz hy hyb hm hd (by omega) (by omega) (by omega) (by omega)
+
+/-- **`Gregorian*.fromstring(str(g)) = g`** for gYear, gYearMonth, gMonth, gMonthDay and gDay values -/
+theorem g_lex_roundtrip (k : GKind) (v11 : Bool) (v : DT) (hs : GShape k v) (hv : v.Valid) (hyb : v.year.natAbs ≤ 2 ^ 31) :
+    gOfLex k v11 (fmtG k v11 v) = .ok v := by
+  have tzf := fmtTz_facts v.tz hv.2.2
+  have tznw := fmtTz_nonwhite v.tz hv.2.2
+  obtain ⟨hm, hd, em, ed, hmb, hdb⟩ := date_fields_ok v hv
+  obtain ⟨y, m, d, u, z⟩ := v
+  obtain ⟨hus, hshape⟩ := hs
+  simp only at hus hm hd em ed hmb hdb hyb tzf tznw
+  subst hus
+  have hstrip : ∀ s : Str, s ≠ [] → (∀ c ∈ s, EPV.Lex.isPyWhite c = false) → pyStripAll s = s :=
+    fun s h1 h2 => pyStrip_id_of_all s h1 h2
+  cases k with
+  | gYear =>
+    obtain ⟨rfl, rfl⟩ := hshape
+    unfold gOfLex fmtG
+    simp only []
+    rw [hstrip _ (by
+          intro h
+          have := pad_ne_nil 4 (isoYear v11 y).natAbs
+          unfold fmtYear at h
+          have h2 := (List.append_eq_nil_iff.mp h).1
+          have h3 := (List.append_eq_nil_iff.mp h2).2
+          exact this h3) (by
+          intro c hc; rcases List.mem_append.mp hc with h | h
+          · exact fmtYear_nonwhite _ _ c h
+          · exact tznw c h)]
+    rw [splitYear_fmtYear v11 y _ (tzHead_weak tzf.2.1)]
+    simp only []
+    rw [if_neg (by have := pad_length_ge 4 (isoYear v11 y).natAbs; omega), tzf.1]
+    simp only []
+    rw [yearOfLex_fmt v11 y hv.1]
+    simp only [bind, Except.bind, gMk]
+    exact mk_midnight y 1 1 z hv.1 hyb (by decide) (by simp [monthDays])
+  | gYearMonth =>
+    have hd1 : d = 1 := hshape
+    subst hd1
+    obtain ⟨a1, b1, e1, t1⟩ := pad2_shape m.toNat hm
+    unfold gOfLex fmtG
+    simp only []
+    rw [hstrip _ (by intro h; simp at h) (by
+          intro c hc
+          simp only [List.mem_append, List.mem_cons] at hc
+          rcases hc with (h | rfl | h) | h
+          · exact fmtYear_nonwhite _ _ c h
+          · decide
+          · exact pad_nonwhite _ _ c h
+          · exact tznw c h)]
+    have hshape2 : fmtYear v11 y ++ '-' :: pad 2 m.toNat ++ fmtTz z = fmtYear v11 y ++ ('-' :: a1 :: b1 :: fmtTz z) := by
+      rw [e1]; simp only [List.append_assoc, List.cons_append, List.nil_append]
+    rw [hshape2, splitYear_fmtYear v11 y _ (Or.inr ⟨'-', _, rfl, by decide⟩)]
+    simp only []
+    rw [if_neg (by have := pad_length_ge 4 (isoYear v11 y).natAbs; omega)]
+    simp only [t1, tzf.1]
+    rw [yearOfLex_fmt v11 y hv.1]
+    simp only [bind, Except.bind, gMk]
+    rw [em]
+    exact mk_midnight y m 1 z hv.1 hyb hmb hdb
+  | gMonth =>
+    obtain ⟨rfl, rfl⟩ := hshape
+    obtain ⟨a1, b1, e1, t1⟩ := pad2_shape m.toNat hm
+    unfold gOfLex fmtG
+    simp only []
+    rw [hstrip _ (by intro h; simp at h) (by
+          intro c hc
+          simp only [List.mem_append, List.mem_cons] at hc
+          rcases hc with (rfl | rfl | h) | h
+          · decide
+          · decide
+          · exact pad_nonwhite _ _ c h
+          · exact tznw c h)]
+    rw [e1]
+    simp only [List.cons_append, List.nil_append, t1, tzf.1, gMk]
+    rw [em]
+    exact mk_midnight 2000 m 1 z (by decide) (by decide) hmb hdb
+  | gMonthDay =>
+    have hy : y = 2000 := hshape
+    subst hy
+    obtain ⟨a1, b1, e1, t1⟩ := pad2_shape m.toNat hm
+    obtain ⟨a2, b2, e2, t2⟩ := pad2_shape d.toNat hd
+    unfold gOfLex fmtG
+    simp only []
+    rw [hstrip _ (by intro h; simp at h) (by
+          intro c hc
+          simp only [List.mem_append, List.mem_cons] at hc
+          rcases hc with ((rfl | rfl | h) | rfl | h) | h
+          · decide
+          · decide
+          · exact pad_nonwhite _ _ c h
+          · decide
+          · exact pad_nonwhite _ _ c h
+          · exact tznw c h)]
+    rw [e1, e2]
+    simp only [List.cons_append, List.nil_append, t1, t2, tzf.1, gMk]
+    rw [em, ed]
+    exact mk_midnight 2000 m d z (by decide) (by decide) hmb hdb
+  | gDay =>
+    obtain ⟨rfl, rfl⟩ := hshape
+    obtain ⟨a2, b2, e2, t2⟩ := pad2_shape d.toNat hd
+    unfold gOfLex fmtG
+    simp only []
+    rw [hstrip _ (by intro h; simp at h) (by
+          intro c hc
+          simp only [List.mem_append, List.mem_cons] at hc
+          rcases hc with (rfl | rfl | rfl | h) | h
+          · decide
+          · decide
+          · decide
+          · exact pad_nonwhite _ _ c h
+          · exact tznw c h)]
+    rw [e2]
+    simp only [List.cons_append, List.nil_append, t2, tzf.1, gMk]
+    rw [ed]
+    exact mk_midnight 2000 1 d z (by decide) (by decide) hmb hdb
+
 end EPV.Cal
